@@ -133,6 +133,15 @@ impl SwiftField for Field61 {
         }
 
         let amount_str = &input[amount_start..pos];
+        // 15d: at most 15 characters, decimal separator included
+        if amount_str.len() > 15 {
+            return Err(ParseError::InvalidFormat {
+                message: format!(
+                    "Field 61 amount must not exceed 15 characters, found {}",
+                    amount_str.len()
+                ),
+            });
+        }
         let amount = parse_amount(amount_str)?;
 
         // Parse transaction type (4 characters: 1!a3!c)
